@@ -14,7 +14,11 @@ Three sub-models (DESIGN.md section 4, C16) plus the certificate derivation:
     A  StreamFidelity, HeartbeatsNeverSurface, ErrorAfterItsData, NoSpuriousError (+ ErrorSticky ...); the
        as-implemented (pre-repair) instance must violate ErrorAfterItsData.
     B  EVERY behaviour TLC generates is replayed on the real hbConn + SCTPConn over a scripted msgStream with the
-       same constants (maxMessageSize = M = 3; simulated ones with M = 5, 8).
+       same constants (maxMessageSize = M = 3; simulated ones with M = 5, 8).  SLOW READER (Gen_SctpBacklog): the
+       reader stalls until 2 .. Cap+1 messages wait unread (Cap = the real recvChBufSize: queue full + the message
+       recvLoop holds in its blocked send), heartbeats interleaved, then reads and arrivals interleave and all is
+       read out.  Receive buffers have an identity in the model (BufMode "fresh" | "ring"): an instance that
+       recycles Cap buffers must violate StreamFidelity / HeartbeatsNeverSurface.
     C  seeded random histories at the production size (65536, production heartbeat payload) -> Trace_SctpStream.
  3. spec/SctpStream/SctpWrite, HbWatchdog   write flow control (bound = limit + one maximal write) and the
     heartbeat watchdog (dead peer closes within 2 intervals, never while heartbeats keep arriving); every generated
@@ -25,7 +29,7 @@ The specifications model the INTENDED behaviour; a divergence of the real code i
 in the driver (bytes returned vs bytes fed, observed timeline, tags read) - only those are violations.  A divergence
 of the projected state without any property-level consequence means the model misrepresents the code (exit 2).
 """
-import json, os, copy, threading, time, hashlib
+import json, os, re, copy, threading, time, hashlib
 import vlib
 
 PKG = "pkg/dtls"
@@ -95,6 +99,9 @@ def run(ctx):
         res["stream"] = ctx.tlc(sS, "SctpStream.tla", "MC_SctpStream_thorough.cfg" if thorough else "MC_SctpStream.cfg", workers=4, timeout=900)
         res["stream_asimpl"] = ctx.tlc(sS, "SctpStream.tla", "MC_SctpStream_asimpl.cfg", workers=2, timeout=300, count=False)
         res["stream_asimpl2"] = ctx.tlc(sS, "SctpStream.tla", "MC_SctpStream_asimpl2.cfg", workers=2, timeout=300, count=False)
+        res["stream_ring"] = ctx.tlc(sS, "SctpStream.tla", "MC_SctpStream_ring.cfg", workers=2, timeout=300, count=False)
+        res["stream_ringhb"] = ctx.tlc(sS, "SctpStream.tla", "MC_SctpStream_ringhb.cfg", workers=2, timeout=300, count=False)
+        res["stream_ringsafe"] = ctx.tlc(sS, "SctpStream.tla", "MC_SctpStream_ringsafe.cfg", workers=2, timeout=300)
         res["write"] = ctx.tlc(sS, "SctpWrite.tla", "MC_SctpWrite.cfg", workers=4, timeout=600)
         res["write_nowait"] = ctx.tlc(sS, "SctpWrite.tla", "MC_SctpWrite_nowait.cfg", workers=2, timeout=300, count=False)
         res["hb"] = ctx.tlc(sS, "HbWatchdog.tla", "MC_HbWatchdog.cfg", workers=2, timeout=300)
@@ -116,6 +123,11 @@ def run(ctx):
                   simulate="num=%d" % nsim, depth=41, deadlock=False, extra=["-seed", str(ctx.seed)])
     g_m8 = gen.go("m8", ctx.tlc, sS, "Gen_SctpStream.tla", "Gen_SctpStream_sim8.cfg", workers=2, timeout=900, count=False,
                   simulate="num=%d" % nsim, depth=41, deadlock=False, extra=["-seed", str(ctx.seed + 1000)])
+    # slow reader: long behaviours (the real queue capacity cannot be made small), sampled; goal level and errOK are
+    # chosen in the initial state
+    nslow = 1500 if thorough else 120
+    g_bl = gen.go("bl", ctx.tlc, sS, "Gen_SctpBacklog.tla", "Gen_SctpBacklog.cfg", workers=2, timeout=1500, count=False,
+                  simulate="num=%d" % nslow, depth=421, deadlock=False, extra=["-seed", str(ctx.seed + 2000)])
     g_w = gen.go("w", ctx.tlc, sS, "Gen_SctpWrite.tla", "Gen_SctpWrite.cfg", workers=4, timeout=900, count=False)
     # directed at the overshoot: long enough (7 driver actions) for fill - drain - refill - write through on the stale token
     # (buffered > limit) - NEXT write, which must be held back
@@ -127,7 +139,7 @@ def run(ctx):
     g_l = gen.go("l", ctx.tlc, sL, "Gen_DtlsListener.tla", "Gen_DtlsListener_sim.cfg", workers=2, timeout=900, count=False,
                  simulate="num=%d" % (nscen * 6), depth=70, deadlock=False, extra=["-seed", str(ctx.seed)])
     gen.join()
-    for b in (g_s2, g_s3, g_m5, g_m8, g_w, g_wo, g_h, g_l):
+    for b in (g_s2, g_s3, g_m5, g_m8, g_bl, g_w, g_wo, g_h, g_l):
         if b["r"]["inv"]:
             raise vlib.InfraError("generator %s failed: %s" % (b["name"], b["r"]["out"][-1500:]))
 
@@ -154,13 +166,16 @@ def run(ctx):
         return n
 
     stream_sets = [("M3", 3, [g_s2["r"]["beh_file"], g_s3["r"]["beh_file"]]), ("M5", 5, [g_m5["r"]["beh_file"]]),
-                   ("M8", 8, [g_m8["r"]["beh_file"]])]
+                   ("M8", 8, [g_m8["r"]["beh_file"]]), ("M3slow", 3, [g_bl["r"]["beh_file"]])]
+    spec_cap = int(re.search(r"^\s*Cap\s*=\s*(\d+)", open(os.path.join(sS, "Gen_SctpBacklog.cfg")).read(), re.M).group(1))
+    slow = {"capacity": spec_cap, "behaviours": 0, "queue_full": 0, "held": 0, "held_error": 0, "heartbeat_on_full_queue": 0, "arrival_on_full_queue": 0,
+            "messages_beyond_capacity": 0, "levels": {}}
     stream_beh = stream_steps = 0
     stream_nontrivial = 0
     for tag, m, files in stream_sets:
         path = os.path.join(ctx.scratch, "stream_beh_%s.ndjson" % tag)
         n = dedup(files, path)
-        if n < (1000 if tag == "M3" else 100):
+        if n < (1000 if tag == "M3" else 100):   # (M3slow: at least 100 of the 240 / 3 000 sampled)
             raise vlib.InfraError("too few stream behaviours generated for %s: %d" % (tag, n))
         outp = os.path.join(ctx.scratch, "stream_replay_%s.ndjson" % tag)
         res = ctx.go_test(PKG, FILES, "dtls", "^TestVerifStreamReplay$", env={"VERIF_IN": path, "VERIF_OUT": outp, "VERIF_M": m},
@@ -170,6 +185,9 @@ def run(ctx):
         if not summ:
             raise vlib.InfraError("stream replay driver did not finish:\n" + res["out"][-3000:])
         summ = summ[0]
+        if summ.get("recvch_cap") != spec_cap:
+            raise vlib.InfraError("the real receive queue holds %s messages, the specification's Cap is %d: the model misrepresents the code "
+                                  "(set Cap in spec/SctpStream/*.cfg)" % (summ.get("recvch_cap"), spec_cap))
         stream_beh += summ["behaviours"]
         stream_steps += summ["steps"]
         for r in rows:
@@ -183,6 +201,10 @@ def run(ctx):
         with open(path) as f:
             for i, line in enumerate(f):
                 b = json.loads(line)
+                if tag == "M3slow":
+                    slow_features(b, slow)
+                    if i == 7:
+                        ctx.sample({"stage": "B stream, slow reader", "M": m, "behaviour": compress_ops([fmt_stream(x) for x in b])})
                 if any(x["a"] == "Feed" and x["n"] > 0 for x in b) and any(x["a"] in ("Read", "ReadStart") for x in b):
                     stream_nontrivial += 1
                 if tag == "M3" and i in (5, 20011):
@@ -191,6 +213,15 @@ def run(ctx):
                   property_level=summ["property"], shape_only=summ["shape"], truncated=summ["truncated"])
         ctx.log("B stream %s: %d behaviours, %d steps, %d property-level / %d shape-only divergences" %
                 (tag, summ["behaviours"], summ["steps"], summ["property"], summ["shape"]))
+    # the slow-reader class must really be in the replayed set: queue full, a message held by recvLoop, a heartbeat and
+    # a message arriving on the full queue, an error held behind the backlog, more messages in total than the queue holds
+    for need, least in (("queue_full", 20), ("held", 20), ("heartbeat_on_full_queue", 5), ("arrival_on_full_queue", 20),
+                        ("messages_beyond_capacity", 20), ("held_error", 1)):
+        if slow[need] < least:
+            raise vlib.InfraError("slow-reader behaviours are vacuous: %s in %d of %d behaviours (need %d): %s" %
+                                  (need, slow[need], slow["behaviours"], least, slow))
+    ctx.stage("B_stream_slow_reader", **slow)
+    ctx.log("B stream slow reader: %s" % json.dumps(slow))
 
     # ------------------------------------------------------------------ 3a. write flow control: B
     pathw = os.path.join(ctx.scratch, "write_beh.ndjson")
@@ -250,7 +281,9 @@ def run(ctx):
     # ------------------------------------------------------------------ 2. read path: C (production-size traces)
     trp = os.path.join(ctx.scratch, "stream_traces.ndjson")
     ntr = 400 if thorough else 60
-    ctx.go_test(PKG, FILES, "dtls", "^TestVerifStreamRandom$", env={"VERIF_OUT": trp, "VERIF_TRACES": ntr, "VERIF_ITEMS": 14}, timeout=900)
+    nslowtr = 48 if thorough else 12
+    ctx.go_test(PKG, FILES, "dtls", "^TestVerifStreamRandom$", env={"VERIF_OUT": trp, "VERIF_TRACES": ntr + nslowtr, "VERIF_ITEMS": 14,
+                                                                      "VERIF_SLOW": nslowtr}, timeout=900)
     stream_traces, cur = [], None
     tainted = 0
     for e in ctx.read_results(trp):
@@ -265,12 +298,57 @@ def run(ctx):
         else:
             cur["ev"].append(e)
     good_stream_traces = [t["ev"] for t in stream_traces if not t["bad"] and t["ev"]]
+    slow_traces = sum(1 for t in stream_traces if any(e.get("st", {}).get("held") for e in t["ev"]))
+    if slow_traces < nslowtr // 4 and not tainted:
+        raise vlib.InfraError("production-size slow-reader traces are vacuous: recvLoop held a message in %d of %d" % (slow_traces, nslowtr))
+
+    # ------------------------------------------------------------------ 2. read path: free-running slow reader (oracle only)
+    outf = os.path.join(ctx.scratch, "stream_freerun.ndjson")
+    res = ctx.go_test(PKG, FILES, "dtls", "^TestVerifStreamFreeRun$", env={"VERIF_OUT": outf, "VERIF_ROUNDS": 96 if thorough else 32},
+                      race=thorough, timeout=1500)
+    rows = ctx.read_results(outf)
+    sf = [x for x in rows if x.get("kind") == "summary"]
+    racy = "WARNING: DATA RACE" in res["out"]
+    if not sf and not racy:
+        raise vlib.InfraError("free-running stream driver did not finish:\n" + res["out"][-3000:])
+    fr = [x for x in rows if x.get("kind") == "freerun"]
+    for r in fr:
+        if r["prop"]:
+            prop_viol.append(stream_violation({
+                "prop": r["prop"], "situation": "free-running:slow-reader", "m": r["m"], "err": r.get("err") or r.get("broke"),
+                "ops": ["peer pushes %d messages (%d bytes) with %d heartbeats interleaved%s as fast as they are taken; the reader falls behind "
+                        "until the peer is stuck (backlog up to %d of %d queued), catches up in bursts, %d times; %d reads" %
+                        (r["messages"], r["bytes"], r["heartbeats"], " then a stream error" if r["with_error"] else "", r["max_backlog"],
+                         r["cap"], r["stalls"], r["reads"])],
+                "got": {"rd": {"bytes_read": r["read"], "first_wrong_offset": r["first_bad_offset"], "got": r.get("got_at"), "want": r.get("want_at")}},
+                "want": None}))
+    if racy:
+        # thorough tier only (-race): the race detector saw two unsynchronised accesses.  Only a report that pairs the receive
+        # loop's write into its buffer with the reader's copy of a queued message is the property's business.
+        blocks = res["out"].split("WARNING: DATA RACE")[1:]
+        mine = [b for b in blocks if "recvLoop" in b.split("==================")[0] and ("hbConn).Read" in b or "SCTPConn).Read" in b)]
+        if not mine:
+            raise vlib.InfraError("the race detector reports a race that does not involve the receive buffers:\n" + blocks[0][:3000])
+        prop_viol.append(("stream:StreamFidelity:receive-buffer-race:free-running:slow-reader",
+                          "read path: recvLoop writes into a receive buffer while the reader is still copying a queued message out of it "
+                          "(race detector, free-running slow reader): the bytes read can be those of a later message", {"race": mine[0][:4000]}))
+    if not racy:
+        deep = sum(1 for r in fr if r["max_backlog"] >= r["cap"])
+        if deep < len(fr) // 2:
+            raise vlib.InfraError("free-running slow reader is vacuous: the receive queue was full in only %d of %d rounds" % (deep, len(fr)))
+        ctx.stage("C_stream_free_running", rounds=len(fr), race_detector=thorough, queue_full_rounds=deep,
+                  messages=sum(r["messages"] for r in fr), stalls=sum(r["stalls"] for r in fr), reads=sum(r["reads"] for r in fr))
+        ctx.log("stream free-running slow reader: %d rounds, queue full in %d, %d messages, %d stalls" %
+                (len(fr), deep, sum(r["messages"] for r in fr), sum(r["stalls"] for r in fr)))
 
     # ------------------------------------------------------------------ wait for stage A before the timing-sensitive parts
     bg.join()
     rL, rs = mcL["r"], mcS["r"]
     ctx.require_design_ok(rL, "DtlsListener")
     ctx.require_design_ok(rs["stream"], "SctpStream intended")
+    ctx.require_design_ok(rs["stream_ringsafe"], "SctpStream with a ring of Cap + 2 recycled receive buffers")
+    expect_inv(rs["stream_ring"], "StreamFidelity", "read path recycling Cap receive buffers (slot reused while its message is queued)")
+    expect_inv(rs["stream_ringhb"], "HeartbeatsNeverSurface", "read path recycling Cap receive buffers (heartbeat read into a queued message's buffer)")
     ctx.require_design_ok(rs["write"], "SctpWrite")
     ctx.require_design_ok(rs["hb"], "HbWatchdog")
     expect_inv(rs["stream_asimpl"], "ErrorAfterItsData", "as-implemented read path (data with error dropped)")
@@ -281,15 +359,16 @@ def run(ctx):
     expect_inv(rs["L_anykey"], "NoCrossDelivery", "listener looking channels up by any key")
     expect_inv(rs["L_unchecked"], "OnlyMatchingCompletes", "listener not verifying the client certificate")
     expect_inv(rs["L_nodefer"], "NothingLeftRegistered", "listener without the deferred removeCert")
-    ctx.log("A: listener %d states, stream %d, write %d, watchdog %d; 8 broken instances fail as expected" %
+    ctx.log("A: listener %d states, stream %d, write %d, watchdog %d; 10 broken instances fail as expected" %
             (rL["distinct"], rs["stream"]["distinct"], rs["write"]["distinct"], rs["hb"]["distinct"]))
     ctx.stage("A", listener_invariants=["NoCrossDelivery", "OnlyMatchingCompletes", "NothingLeftRegistered",
                                         "DuplicateSecretDoesNotDisturbFirst", "EntriesHaveOwners", "DeliveredOnce"],
               stream_invariants=["StreamFidelity", "HeartbeatsNeverSurface", "ErrorAfterItsData", "NoSpuriousError", "ErrorSticky",
-                                 "PendingMeansEmpty", "DeferredErrorHasData"],
+                                 "PendingMeansEmpty", "DeferredErrorHasData", "ReceiveBufferUnreferenced", "QueueBounded", "HeldMeansFull"],
               write_invariants=["BufferedBounded", "WaitingHasWakeup", "MutexOK", "OvershootOnlyOnce"],
               watchdog_invariants=["DeadPeerCloses", "NoEarlyClose"],
-              nonvacuity="8 deliberately broken instances (asimpl x2, nowait, unarmed, dataok, anykey, unchecked, nodefer) each violate their invariant")
+              nonvacuity="10 deliberately broken instances (asimpl x2, ring, ringhb, nowait, unarmed, dataok, anykey, unchecked, nodefer) each violate "
+                         "their invariant; a ring of Cap + 2 receive buffers satisfies all of them")
 
     # ------------------------------------------------------------------ 3b. watchdog: B (real time)
     pathh = os.path.join(ctx.scratch, "hb_beh.ndjson")
@@ -444,6 +523,7 @@ def run(ctx):
             raise vlib.InfraError("stream trace binding is vacuous: corrupted trace accepted")
     ctx.cov["traces_validated_against_impl"] = nval
     ctx.stage("C", listener_traces=len(ltraces), stream_traces=len(good_stream_traces), stream_traces_with_property_violation=tainted,
+              stream_traces_slow_reader=slow_traces,
               validated=nval, corrupted_listener_trace_rejected_at=bl["r"][1],
               corrupted_stream_trace_rejected_at=(bs["r"][1] if bs else None))
     ctx.log("C: %d listener traces + %d production-size stream traces, %d validated" % (len(ltraces), len(good_stream_traces), nval))
@@ -476,7 +556,7 @@ def run(ctx):
                                   "consequence observed): the model misrepresents the code - %s" % ("/".join(unexplained), msg))
         ctx.notes.append("projected-state divergences accompanying the violations above: " + msg[:1500])
 
-    ctx.cov["evaluations"] = stream_beh + sw["behaviours"] + sh["runs"] + sl["scenarios"] + len(stream_traces) + sc["secrets"]
+    ctx.cov["evaluations"] = stream_beh + len(fr) + sw["behaviours"] + sh["runs"] + sl["scenarios"] + len(stream_traces) + sc["secrets"]
     ctx.cov["distinct_nontrivial"] = stream_nontrivial + classes["distinct"]
     ctx.cov["exhaustive"] = False
     ctx.cov["rule"] = ("stream: a case is one (item sequence, read-size sequence) behaviour, de-duplicated by hash; non-trivial = carries at "
@@ -489,7 +569,11 @@ def run(ctx):
         "callback when the amount crosses from above the threshold to it or below (transcribed from pion/sctp v1.8.35 stream.go)",
         "a data message byte-identical to the heartbeat payload cannot be told from a heartbeat (inherent to the design); messages that "
         "contain, start with or are a prefix of the payload are exercised and must be delivered",
-        "recvCh never fills in the replayed behaviours (<= 14 items vs capacity 64); the slow-reader timeout path of recvLoop is not modelled",
+        "slow reader: recvCh (capacity read from the real object) is filled to capacity and one message beyond (held by recvLoop) with the "
+        "reader stalled; recvLoop's timeout on that blocked send (it closes the connection after one heartbeat interval) is kept out by an "
+        "interval of one hour and is not modelled; taking a message out of recvCh and copying it are one atomic step in the model and in the "
+        "stepwise driver (a ring of exactly Cap + 1 recycled buffers is unsafe only inside that window): that window is reached only by the "
+        "free-running slow-reader stage (unscheduled; byte oracle, plus the race detector in the thorough tier), i.e. by sampling",
         "watchdog: hbLoop's non-atomic check-then-reset of `waiting` is modelled as atomic (window of nanoseconds); timing verdicts are "
         "one-sided (close >= 1 interval after the last heartbeat handed over; close <= 2 intervals + slack after it), reproduced twice",
         "listener: handshake internals are not scheduled; order is imposed only on the calls (AcceptWithContext / Dial / cancel); invariants are "
@@ -506,7 +590,7 @@ def stream_violation(r):
     sit = r.get("situation") or "none"
     key = "stream:%s:%s" % (prop, sit)
     what = ("read path (maxMessageSize %s): %s after %s - real call returned %s%s" %
-            (r.get("m"), explain_stream(prop, sit), " ; ".join(r.get("ops", [])), json.dumps((r.get("got") or {}).get("rd")),
+            (r.get("m"), explain_stream(prop, sit), " ; ".join(compress_ops(r.get("ops", []))), json.dumps((r.get("got") or {}).get("rd")),
              (", specification: %s" % json.dumps(r["want"].get("rd"))) if r.get("want") else ""))
     if r.get("err"):
         what += " (error text: %s)" % r["err"]
@@ -526,9 +610,56 @@ def explain_stream(prop, sit):
         "NoSpuriousError:closed-without-error": "the connection closed although the stream produced no error",
         "ErrorNeverReported": "the stream error is never reported to the reader",
     }.get(prop, prop)
-    where = {"queued": "messages queued before the stream error", "with-error": "bytes that arrived together with the error",
+    slow_reader = sit.endswith(":slow-reader")
+    sit = sit[:-len(":slow-reader")] if slow_reader else sit
+    where = {"queued": "messages received and not yet read", "with-error": "bytes that arrived together with the error",
              "queued+with-error": "queued messages and bytes that arrived with the error", "none": "no data outstanding"}.get(sit, sit)
-    return "%s [outstanding: %s]" % (base, where)
+    return "%s [outstanding: %s%s]" % (base, where, "; the reader had fallen behind by the whole receive queue" if slow_reader else "")
+
+
+def compress_ops(ops):
+    """long operation lists (slow-reader behaviours have hundreds of steps): runs of arrivals / reads are summarised"""
+    if len(ops) <= 40:
+        return list(ops)
+    out, i = [], 0
+    while i < len(ops):
+        kind = "Feed" if ops[i].startswith("Feed") else "Read"
+        j = i
+        while j < len(ops) and ops[j].startswith("Feed") == (kind == "Feed"):
+            j += 1
+        run = ops[i:j]
+        if len(run) <= 3:
+            out += run
+        elif kind == "Feed":
+            nhb = sum(1 for x in run if x.startswith("Feed(hb"))
+            out.append("[%d arrivals: %d messages, %d heartbeats]" % (len(run), len(run) - nhb, nhb))
+        else:
+            out.append("[%d reads]" % len(run))
+        i = j
+    return out
+
+
+def slow_features(b, acc):
+    """what a slow-reader behaviour exercises (evidence + vacuity guard); capacity = the largest queue length the spec produced"""
+    CAP = acc["capacity"]
+    acc["behaviours"] += 1
+    feeds = [x for x in b if x["a"] == "Feed"]
+    level = max([x["st"]["chan"] + (1 if x["st"].get("held") else 0) for x in b] or [0])
+    acc["levels"][str(level)] = acc["levels"].get(str(level), 0) + 1
+    full = any(x["st"]["chan"] >= CAP for x in b)
+    acc["queue_full"] += 1 if full else 0
+    acc["held"] += 1 if any(x["st"].get("held") for x in b) else 0
+    acc["held_error"] += 1 if any(x["k"] == "err" and x["st"].get("held") for x in feeds) else 0
+    prev_full = False
+    hbf = arr = False
+    for x in b:
+        if x["a"] == "Feed" and prev_full:
+            arr = True
+            hbf = hbf or x["k"] == "hb"
+        prev_full = x["st"]["chan"] >= CAP and not x["st"].get("held")
+    acc["heartbeat_on_full_queue"] += 1 if hbf else 0
+    acc["arrival_on_full_queue"] += 1 if arr else 0
+    acc["messages_beyond_capacity"] += 1 if full and sum(1 for x in feeds if x["k"] != "hb") > CAP + 8 else 0
 
 
 def fmt_stream(x):
